@@ -191,6 +191,51 @@ fn main() {
             }
             println!("{written}");
         }
+        "shapes" => {
+            // exploration aid: rvmon shapes <dir> <n> <seed> - write hand-written shape families as files
+            let dir = std::path::PathBuf::from(args.get(2).cloned().unwrap_or_default());
+            let n: u64 = args.get(3).and_then(|s| s.parse().ok()).unwrap_or(100);
+            let seed: u64 = args.get(4).and_then(|s| s.parse().ok()).unwrap_or(1);
+            let _ = std::fs::create_dir_all(&dir);
+            for k in 0..n {
+                let mut rng = rng::Rng::derive(seed, 6_800, k);
+                let s = match k % 3 {
+                    0 => shapes::trap_handler_family(&mut rng),
+                    1 => shapes::shared_tail_family(&mut rng),
+                    _ => {
+                        let mut v = shapes::call_graph_shapes(&mut rng);
+                        let i = rng.below(v.len());
+                        v.swap_remove(i)
+                    }
+                };
+                let text = print::print(&s.prog, &print::Style::plain(), &mut rng::Rng::new(1)).text;
+                let _ = std::fs::write(dir.join(format!("{k:04}-{}.s", s.name)), text);
+            }
+        }
+        "mutants" => {
+            // exploration aid: rvmon mutants <n> <seed> - analyse n semantic mutants, report divergences
+            rva::install_panic_hook();
+            let n: u64 = args.get(2).and_then(|s| s.parse().ok()).unwrap_or(1000);
+            let seed: u64 = args.get(3).and_then(|s| s.parse().ok()).unwrap_or(1);
+            let mut classes: BTreeMap<String, u64> = BTreeMap::new();
+            for k in 0..n {
+                let mut rng = rng::Rng::derive(seed, 6_700, k);
+                let p = hostile::semantic_mutant(&mut rng);
+                let text = print::print(&p, &print::Style::plain(), &mut rng::Rng::new(1)).text;
+                let r = rva::guarded(|| rva::analyze_text(&text));
+                let key = match r {
+                    Ok(a) => if a.cfg.is_ok() { "ok".to_string() } else { "cfg-error".to_string() },
+                    Err(p) => format!("panic:{}:{}:{}", p.class(), p.site(), p.msg.chars().take(60).collect::<String>()),
+                };
+                if key.starts_with("panic") && *classes.get(&key).unwrap_or(&0) < 2 {
+                    let dir = std::path::PathBuf::from("/verif/work/mutants");
+                    let _ = std::fs::create_dir_all(&dir);
+                    let _ = std::fs::write(dir.join(format!("{seed}-{k}.s")), &text);
+                }
+                *classes.entry(key).or_insert(0) += 1;
+            }
+            println!("{classes:?}");
+        }
         "worker" => {
             let path = args.get(2).cloned().unwrap_or_default();
             std::process::exit(props::c06::worker(&path));
